@@ -84,6 +84,20 @@ def diterMargin (g : Graph Rat) (a restart tol : Rat) : Nat → DState Rat → R
     let m := minR m (Rat.abs (st'.residu - tol * restart))
     if st'.residu < tol * restart then m else diterMargin g a restart tol k st' m
 
+/-- margin of the work-list tests of the push kernel: the least `|r - tol|` over all the residuals compared with `tol` -/
+def pushMargin (g : Graph Rat) (deg : List Rat) (a tol : Rat) : Nat → PState Rat → Rat → Rat
+  | 0, _, m => m
+  | fuel+1, st, m =>
+    match st.work with
+    | [] => m
+    | v :: rest =>
+      let st1 : PState Rat := { st with scores := st.scores.modify v (fun s => s + st.resid.getD v 0), work := rest }
+      let (st2, m2) := (g.row v).foldl (fun (acc : PState Rat × Rat) p =>
+        let tmp := acc.1.resid.getD p.1 0
+        let r' := tmp + acc.1.resid.getD v 0 * (1 - a) / deg.getD v 0
+        (pushNeighbours deg a tol v [p] acc.1, minR acc.2 (minR (Rat.abs (r' - tol)) (Rat.abs (tmp - tol))))) (st1, m)
+      pushMargin g deg a tol fuel st2 m2
+
 /-! ### the specification of PageRank evaluated on an output `x` -/
 
 def specPagerank (g : Graph Rat) (a : Rat) (w : Weights Rat) (x : List Rat) (eps : Rat) : String :=
@@ -229,9 +243,16 @@ def handle : Handler
       let rev : Graph Rat := { n := g.n, row := fun v => ((List.range g.n).filter fun u =>
                   (g.row u).any fun p => p.1 == v).flatMap fun u => ((g.row u).filter fun p => p.1 == v).map fun p => (u, p.2) }
       let _ := m
-      match pushPagerank g rev deg seeds a tol (100 * (g.n + 1) * (g.n + 1)) with
+      let fuel := 100 * (g.n + 1) * (g.n + 1)
+      let resid := pushInit g.n rev deg seeds a
+      let st0 : PState Rat := { scores := tab g.n fun _ => 1 - a, resid := resid, work := argsortDesc resid }
+      let mg := pushMargin g deg a tol fuel st0 1
+      -- least gap between two different initial residuals (order of the work-list)
+      let gaps := resid.flatMap fun x => resid.filterMap fun y => if x == y then none else some (Rat.abs (x - y))
+      let mg := gaps.foldl minR mg
+      match pushPagerank g rev deg seeds a tol fuel with
       | none => some "fuel"
-      | some r => some ("ok " ++ showRatList r)) "bad-args"
+      | some r => some s!"ok {showRatList r} {showRat mg}") "bad-args"
   /- Katz: model (Horner on the boolean transposed adjacency), exact arithmetic -/
   | "c04.katz", [n, ip, ix, dt, a, k] => some <| Option.getD (do
       let g ← graphRat? n ip ix dt
